@@ -3,6 +3,7 @@
 package sym
 
 import (
+	"net/url"
 	"fmt"
 	"sort"
 	"strconv"
@@ -269,6 +270,27 @@ func minLen(t *Term) int {
 	return 0
 }
 
+// ampSplit splits pieces at the first literal '&'. ok is false when a piece
+// before it is not known to be '&'-free (only escaped values and literals
+// are). tail == nil: no literal '&' at all (the whole string is '&'-free).
+// The tail does not include the '&' itself.
+func ampSplit(ps []*Term) (head, tail []*Term, ok bool) {
+	for i, p := range ps {
+		switch {
+		case p.IsConst():
+			if j := strings.IndexByte(p.S, '&'); j >= 0 {
+				head = append(append([]*Term{}, ps[:i]...), StrC(p.S[:j]))
+				tail = append([]*Term{StrC(p.S[j+1:])}, ps[i+1:]...)
+				return head, tail, true
+			}
+		case p.Op == "uf" && p.S == "qe":
+		default:
+			return nil, nil, false
+		}
+	}
+	return ps, nil, true
+}
+
 func Eq(a, b *Term) *Term {
 	if SameTerm(a, b) {
 		return TrueT
@@ -364,9 +386,37 @@ func Eq(a, b *Term) *Term {
 				}
 			}
 		}
+		// query-string split: an escaped value (uf:qe) contains no '&' (axiom of qe), so two
+		// concatenations of '&'-free pieces and literal text agree iff they agree up to the
+		// first literal '&' and after it
+		if ha, ta, oka := ampSplit(pa); oka {
+			if hb, tb, okb := ampSplit(pb); okb {
+				if (ta == nil) != (tb == nil) {
+					return FalseT
+				}
+				if ta != nil {
+					return And(Eq(Concat(ha...), Concat(hb...)), Eq(Concat(ta...), Concat(tb...)))
+				}
+			}
+		}
 		a, b = Concat(pa...), Concat(pb...)
 		if a.Op == "uf" && b.Op == "uf" && a.S == b.S && injectiveUF[a.S] && len(a.Args) == 1 {
 			return Eq(a.Args[0], b.Args[0])
+		}
+		// qe is Go's url.QueryEscape, a concrete injective function: qe(t) = k for a literal k
+		// holds iff k is the escape of some c and t = c
+		for i := 0; i < 2; i++ {
+			u, k := a, b
+			if i == 1 {
+				u, k = b, a
+			}
+			if u.Op == "uf" && u.S == "qe" && len(u.Args) == 1 && k.IsConst() {
+				c, err := url.QueryUnescape(k.S)
+				if err != nil || url.QueryEscape(c) != k.S {
+					return FalseT
+				}
+				return Eq(u.Args[0], StrC(c))
+			}
 		}
 		if a.Op == "ite" && b.IsConst() {
 			return Ite(a.Args[0], Eq(a.Args[1], b), Eq(a.Args[2], b))
